@@ -51,7 +51,10 @@ JUNK_TEXT = ["1E+600000000", "1E+999999999999", "-1E-600000000", "9" * 5000, "1"
              # a long legal-looking run that ends in one illegal character: backtracking bait for every pattern-checked type
              "{urn:example:orders:schema:v1:purchaseOrder items}po", "{http://example.com/" + "a/" * 20 + "b c}x", "{urn:" + "a" * 40 + "|}x", "{urn:" + "a:" * 30 + "^}x", "urn:" + "a" * 40 + " b",
              "a" * 30 + "!", "1" * 40 + "x", "P" + "1Y" * 30, "P" + "1" * 60 + "Z", "PT" + "1" * 40 + ".S", "-" * 40, "2020-01-01T00:00:00." + "9" * 40 + "x", "1 " * 40 + "x", "A" * 64 + "=!", "0" * 60 + "e", "+" + "1" * 50 + ".", "2020-01-01" + "+" * 30, "é" * 40 + "!",
-             " " * 60 + "x", "x" + " " * 60, "a:" * 40, "(" * 40, "\\" * 40]
+             " " * 60 + "x", "x" + " " * 60, "a:" * 40, "(" * 40, "\\" * 40,
+             # magnitudes beyond float / int64 / the int-to-str digit limit inside otherwise legal forms
+             "1" + "0" * 400 + "-01-01T00:00:00", "-" + "9" * 400 + "-12-31", "1" + "0" * 400 + "-01-01", "1" + "0" * 5000 + "-01-01T00:00:00Z", "P" + "9" * 400 + "Y", "PT" + "9" * 400 + "S", "P1Y" + "9" * 400 + "M",
+             "12:00:00." + "9" * 400, "2020-01-01T12:00:00+" + "9" * 30 + ":00", "--" + "9" * 400, "1" + "0" * 4400, "-" + "1" + "0" * 4400, "1" * 4301, "0." + "0" * 4400 + "1", "1E" + "9" * 30, "1e-" + "9" * 30]
 JUNK_JSON = [{"qname": "a", "type": None, "value": {"qname": "b", "type": None, "value": 1}}, {"qname": "a", "type": "{urn:x}dog", "value": [1]}, [None, None], {"": 1}, [{"": {}}], 1e308 * 10, -0.0,
              None, True, 0, -1, 1.5, 1e400, "", "abc", [], [[]], [1, [2]], {}, {"a": 1}, {"qname": "q", "type": None, "value": 1}, {"qname": "q", "text": None, "tail": None, "children": [], "attributes": {}}, [None], "9" * 40, {"value": {}},
              # generic-element shaped objects with unusable parts
@@ -60,6 +63,41 @@ JUNK_JSON = [{"qname": "a", "type": None, "value": {"qname": "b", "type": None, 
              {"qname": "a", "type": None}, {"qname": None, "text": None, "tail": None, "children": [], "attributes": {}}, {"qname": "", "text": "", "tail": "", "children": [], "attributes": {}},
              {"qname": "q", "text": 5, "tail": [], "children": {}, "attributes": []}, {"qname": "q", "text": None, "tail": None, "children": [1, None, "s"], "attributes": {"": None, "{": 1}},
              {"qname": "q", "text": None, "tail": None, "children": [{"qname": None}], "attributes": None}, {"qname": [], "value": {}}, {"qname": {}, "type": [], "value": []}, "sNaN", {"value": "sNaN"}]
+
+
+def _family(text):
+    """Rough lexical family of a value: junk of the same family is a near miss rather than plain garbage."""
+    t = text.strip()
+    if not t:
+        return "other"
+    if re.match(r"^-?\d+-\d+-\d+T", t) or ("T" in t and t.count(":") >= 1 and t[:1].isdigit()):
+        return "datetime"
+    if re.match(r"^-?\d{2,}-\d", t) or t.startswith("--"):
+        return "date"
+    if re.match(r"^\d+:\d", t):
+        return "time"
+    if re.match(r"^-?P", t):
+        return "duration"
+    if t.lower() in ("true", "false", "yes", "no") or t in ("0", "1"):
+        return "bool"
+    if re.match(r"^[+-]?[\d.,_ ]+([eE][+-]?\d*)?$", t) or t.lower().lstrip("+-") in ("inf", "nan", "infinity", "snan") or re.match(r"^[+-]?\d", t):
+        return "number"
+    if t.startswith("{") or re.match(r"^[\w.-]*:[\w.-]*$", t):
+        return "qname"
+    return "other"
+
+
+JUNK_BY_FAMILY = {}
+for _i, _j in enumerate(JUNK_TEXT):
+    JUNK_BY_FAMILY.setdefault(_family(_j), []).append(_i)
+
+
+def junk_for(current, val):
+    """Seven times in ten a junk value of the same lexical family as the value it replaces."""
+    fam = JUNK_BY_FAMILY.get(_family(current or ""))
+    if fam and fam is not JUNK_BY_FAMILY.get("other") and val % 10 < 7:
+        return JUNK_TEXT[fam[(val // 10) % len(fam)]]
+    return JUNK_TEXT[val % len(JUNK_TEXT)]
 
 
 # ---------------------------------------------------------------- stores
@@ -306,12 +344,18 @@ def apply_xml_struct_fault(data, f):
                 return data, False
             el2.append(el)
         elif k == "text_corrupt":
-            el.text = val
+            leaves = [e for e in els if len(e) == 0 and (e.text or "").strip()]
+            if leaves and f["idx2"] % 5:
+                el = leaves[f["idx"] % len(leaves)]  # four times in five an element that carries a value
+            el.text = junk_for(el.text, f["val"])
         elif k == "attr_corrupt":
             if not el.attrib:
-                return data, False
+                withattrs = [e for e in els if e.attrib]
+                if not withattrs:
+                    return data, False
+                el = withattrs[f["idx"] % len(withattrs)]
             key = sorted(el.attrib)[f["idx2"] % len(el.attrib)]
-            el.set(key, val)
+            el.set(key, junk_for(el.get(key), f["val"]))
         elif k == "attr_delete":
             if not el.attrib:
                 return data, False
@@ -458,7 +502,8 @@ def apply_json_struct_fault(value, f):
             leaves = [p for p in paths if isinstance(_get(value, p), (str, int, float)) and not isinstance(_get(value, p), bool)]
             if not leaves:
                 return value, False
-            return _set(value, leaves[f["idx"] % len(leaves)], JUNK_TEXT[f["val"] % len(JUNK_TEXT)]), True
+            leaf = leaves[f["idx"] % len(leaves)]
+            return _set(value, leaf, junk_for(str(_get(value, leaf)), f["val"])), True
         if k == "list_grow":
             cur = _get(value, path)
             if isinstance(cur, list) and cur:
